@@ -1,13 +1,406 @@
-import Uflow.Model.Endpoint
+import Uflow.Lemmas.EndpointServerExample
 
-/-! # C07 (theorems on the endpoint model are being added) -/
+/-!
+# C07 — connections only after a nonce-validated handshake (server half, and the agreement of the
+two half-connection configurations)
+
+Model: `Uflow/Model/Endpoint.lean`. Vocabulary from `Uflow/Lemmas/EndpointServer*.lean`:
+`Server.WF` (global invariant, holds in every reachable state: `SRun.WF`), `NoConn l` (no `connect`
+event in `l`), `EvNC l l'` (`l'` = `l` followed by `connect`-free events), `Server.activate` (state
+after a matching handshake ACK), `Server.accept` / `Server.refuse` / `Server.full` /
+`Server.drawNonce` / `Server.synAckBytes` / `Server.newEntry` (outcomes of `handleSyn`), `SRun`
+(runs with logs). All theorems hold for every half-connection behaviour `hc`.
+The client half of C07 is in the other agent's files.
+-/
 
 namespace Uflow.Props.C07
 
-open Uflow.Endpoint
+open Uflow.Endpoint Uflow.Codec Uflow.Gen Uflow.HalfConn
+
+variable {H : Type}
 
 /-- `u32` (the model of `.min(u32::MAX as usize) as u32`) fits 32 bits. -/
 theorem C07_u32_lt (x : Nat) : u32 x < 2^32 := by
   unfold u32; omega
+
+/-! ## C07_server_connect_sound -/
+
+/-- **Frame level.** Processing one frame from `addr` either appends only `connect`-free events, or
+the frame is `.hsAck na`, the entry of `addr` is `pending` with `localNonce = na`, the SYN-ACK stored
+in (and resent from) that entry is the encoding of `.synAck remoteNonce na ..`, exactly the one
+event `connect addr` is appended, nothing is sent and the entry of `addr` becomes `active` with the
+half connection built from the handshake values (so a second ACK finds no pending entry). -/
+theorem C07_server_connect_sound_frame (hc : HC H) (s s' : Server H) (hw : s.WF) (addr : Nat) (f : Frame)
+    (nowMs nowNs : Nat) (sent : List (Nat × List Nat))
+    (hr : s.handleFrame hc addr f nowMs nowNs = .ok (s', sent)) :
+    EvNC s.eventsOut s'.eventsOut ∨
+    ∃ c na rn rate alloc, f = .hsAck na ∧ s.find addr = some c ∧ na < 2^32 ∧
+      c.state = .pending na rn rate alloc (encode (.synAck rn na (u32 s.cfg.ep.maxReceiveRate)
+        (u32 s.cfg.ep.maxPacketSize) (u32 s.cfg.ep.maxReceiveAlloc))) ∧
+      s' = s.activate hc c na rn rate alloc nowMs nowNs ∧
+      s'.eventsOut = s.eventsOut ++ [SEvent.connect addr] ∧ sent = [] ∧
+      s'.find addr = some { c with state := (.active (hc.new (hcConfig s.cfg.ep na rn rate alloc) nowNs)
+        (nowMs + s.cfg.ep.activeTimeoutMs) none) } :=
+  Server.handleFrame_connect hc hw addr f nowMs nowNs hr
+
+/-- **Step level (C07_server_connect_sound).** Every `connect a` delivered by `Server.step` was
+emitted while processing a datagram `(a, bytes)` of this step's arrivals that decodes to `.hsAck na`,
+at a moment (`s1`, after the preceding arrivals) when the entry of `a` was `pending` with
+`localNonce = na` and stored the SYN-ACK `encode (.synAck remoteNonce na ..)`; that datagram
+activated the entry and sent nothing. -/
+theorem C07_server_connect_sound (hc : HC H) (s : Server H) (hw : s.WF) (he : NoConn s.eventsOut) (nowNs : Nat)
+    (arrivals : List (Nat × List Nat)) (s' : Server H) (sent : List (Nat × List Nat)) (evs : List SEvent)
+    (hr : s.step hc nowNs arrivals = .ok (s', sent, evs)) (a : Nat) (hin : SEvent.connect a ∈ evs) :
+    ∃ s0 sent0 pre bytes post s1 sent1 c na rn rate alloc,
+      s.flushActive hc = .ok (s0, sent0) ∧
+      arrivals = pre ++ (a, bytes) :: post ∧
+      s0.handleFrames hc pre ((nowNs - s.timeBase) / 1000000) nowNs = .ok (s1, sent1) ∧ s1.WF ∧
+      decode (bytes.take MAX_FRAME_SIZE) = some (.hsAck na) ∧ na < 2^32 ∧
+      s1.find a = some c ∧
+      c.state = .pending na rn rate alloc (encode (.synAck rn na (u32 s.cfg.ep.maxReceiveRate)
+        (u32 s.cfg.ep.maxPacketSize) (u32 s.cfg.ep.maxReceiveAlloc))) ∧
+      s1.handleFrames hc [(a, bytes)] ((nowNs - s.timeBase) / 1000000) nowNs =
+        .ok (s1.activate hc c na rn rate alloc ((nowNs - s.timeBase) / 1000000) nowNs, []) :=
+  Server.step_connect hc hw he nowNs arrivals hr a hin
+
+/-- The hypotheses of `C07_server_connect_sound` hold in every state of every run. -/
+theorem C07_server_reachable_ok (hc : HC H) (cfg : SrvConfig) (s : Server H) (rx tx : List (Nat × List Nat))
+    (ev : List SEvent) (hr : SRun hc cfg s rx tx ev) : s.WF ∧ NoConn s.eventsOut := by
+  refine ⟨hr.WF, ?_⟩
+  rw [hr.eventsOut_nil]
+  exact NoConn.nil
+
+/-- No other phase of `step` and no API call emits `connect`. -/
+theorem C07_server_no_connect_elsewhere (hc : HC H) (s : Server H) (hw : s.WF) :
+    (∀ s' sent, s.flushActive hc = .ok (s', sent) → EvNC s.eventsOut s'.eventsOut) ∧
+    (∀ fuel nowMs sent, EvNC s.eventsOut (Server.runTimers fuel s nowMs sent).1.eventsOut) ∧
+    (∀ nowMs s', s.activeTimeouts hc nowMs = .ok s' → EvNC s.eventsOut s'.eventsOut) ∧
+    EvNC s.eventsOut s.retain.eventsOut ∧
+    (∀ nowMs nowNs s' sent, s.stepActive hc nowMs nowNs = .ok (s', sent) → EvNC s.eventsOut s'.eventsOut) ∧
+    (∀ addr, EvNC s.eventsOut (s.drop addr).eventsOut) ∧
+    (∀ addr m, EvNC s.eventsOut (s.disconnect addr m).eventsOut) ∧
+    (∀ addr d ch m, EvNC s.eventsOut (s.send hc addr d ch m).eventsOut) :=
+  ⟨fun _ _ h => (Server.flushActive_wq hc hw h).2.ev,
+   fun fuel nowMs sent => (Server.runTimers_wq fuel hw nowMs sent).2.ev,
+   fun nowMs _ h => (Server.activeTimeouts_wq hc hw nowMs h).2.ev,
+   (Server.retain_wq hw).2.ev,
+   fun nowMs nowNs _ _ h => (Server.stepActive_wq hc hw nowMs nowNs h).2.ev,
+   fun addr => (Server.drop_wq hw addr).2.ev,
+   fun addr m => (Server.disconnect_wq hw addr m).2.ev,
+   fun addr d ch m => (Server.send_wq hc hw addr d ch m).2.ev⟩
+
+/-- The nonce of a pending entry is the one drawn from the RNG by `handleSyn` for a SYN from that
+address, and it is the `nonce` field of the SYN-ACK sent to that address: an accepted SYN creates
+the entry `pending drawNonce synNonce ..` whose stored reply is exactly the datagram sent. -/
+theorem C07_server_nonce_origin (s : Server H) (addr n r a nowMs : Nat) :
+    (s.newEntry addr n r a).address = addr ∧
+    (s.newEntry addr n r a).state = .pending s.drawNonce n r a (s.synAckBytes n) ∧
+    s.drawNonce = s.rng.next.1 % 2^32 ∧
+    s.synAckBytes n = encode (.synAck n s.drawNonce (u32 s.cfg.ep.maxReceiveRate) (u32 s.cfg.ep.maxPacketSize)
+      (u32 s.cfg.ep.maxReceiveAlloc)) ∧
+    decode ((s.synAckBytes n).take MAX_FRAME_SIZE) = (if n < 2^32 then some (.synAck n s.drawNonce
+      (u32 s.cfg.ep.maxReceiveRate) (u32 s.cfg.ep.maxPacketSize) (u32 s.cfg.ep.maxReceiveAlloc))
+      else decode ((s.synAckBytes n).take MAX_FRAME_SIZE)) ∧
+    (s.accept addr n r a nowMs).clients = s.clients ++ [s.newEntry addr n r a] := by
+  refine ⟨rfl, rfl, rfl, rfl, ?_, rfl⟩
+  split
+  · rename_i hn
+    exact decode_synAck _ _ _ _ _ hn s.drawNonce_lt (u32_lt _) (u32_lt _) (u32_lt _)
+  · rfl
+
+/-- Pending entries are created only by an accepted SYN and never modified: after any frame, a
+pending entry is an unmodified pending entry from before, or the frame was a SYN from its address
+accepted just now (and the SYN-ACK with its nonce was sent to that address). -/
+theorem C07_server_pending_origin (hc : HC H) (s s' : Server H) (hw : s.WF) (addr : Nat) (f : Frame)
+    (nowMs nowNs : Nat) (sent : List (Nat × List Nat))
+    (hr : s.handleFrame hc addr f nowMs nowNs = .ok (s', sent)) (c : RClient H) (hc' : c ∈ s'.clients)
+    (hp : c.state.isPending = true) :
+    c ∈ s.clients ∨
+    ∃ v n r p a, f = .syn v n r p a ∧ v = PROTOCOL_VERSION ∧ s.find addr = none ∧ c = s.newEntry addr n r a ∧
+      sent = [(addr, s.synAckBytes n)] := by
+  obtain ⟨_, hq | ⟨v, n, r, p, a, h1, h2, h3, h4, h5⟩ | ⟨c0, na, rn, rate, alloc, reply, _, hf, hst, hs', _⟩⟩ :=
+    Server.handleFrame_wq hc hw addr f nowMs nowNs hr
+  · exact Or.inl (hq.pendSub c hc' hp)
+  · subst h4
+    rcases List.mem_append.1 hc' with hm | hm
+    · exact Or.inl hm
+    · have hce : c = s.newEntry addr n r a := by simpa using hm
+      subst h1
+      simp only [Server.handleFrame, Except.ok.injEq] at hr
+      rcases s.handleSyn_cases addr v n r p a nowMs with ⟨⟨c1, hc1⟩, _⟩ | ⟨_, e, ev, he⟩ | ⟨_, hv, _, _, _, _⟩
+      · rw [h2] at hc1; cases hc1
+      · rw [he] at hr
+        have := congrArg (fun x : Server H × List (Nat × List Nat) => x.2) hr
+        simp only [h5] at this
+        have h6 := congrArg List.length (congrArg (List.map (fun x : Nat × List Nat => x.2.length)) this)
+        simp only [List.map_cons, List.map_nil, List.length_cons, List.length_nil] at h6
+        have h7 := congrArg (fun l : List (Nat × List Nat) => l.map (fun x => x.2.length)) this
+        simp only [List.map_cons, List.map_nil, errFrame, encode_hsError_length, Server.synAckBytes,
+          encode_synAck_length] at h7
+        cases h7
+      · exact Or.inr ⟨v, n, r, p, a, rfl, hv, h2, hce, h5⟩
+  · rw [hs'] at hc'
+    exact Or.inl (Server.activate_pendSub hc hw (Server.find_some hf).1 na rn rate alloc nowMs nowNs c hc' hp)
+
+/-- **Provenance along runs.** In every state of every run, a pending entry `pending ln rn r al reply`
+of address `a` satisfies: `ln < 2^32`; `reply` is the encoding of `.synAck rn ln ..` (so `ln` is its
+`nonce` field); that datagram was sent to `a`; and a datagram from `a` was received that decodes to a
+SYN carrying `rn`, `r`, `al` — the SYN for which `handleSyn` drew `ln`. -/
+theorem C07_server_nonce_provenance (hc : HC H) (cfg : SrvConfig) (s : Server H) (rx tx : List (Nat × List Nat))
+    (ev : List SEvent) (hr : SRun hc cfg s rx tx ev) (c : RClient H) (hcm : c ∈ s.clients)
+    (ln rn r al : Nat) (reply : List Nat) (hst : c.state = .pending ln rn r al reply) :
+    ln < 2^32 ∧
+    reply = encode (.synAck rn ln (u32 cfg.ep.maxReceiveRate) (u32 cfg.ep.maxPacketSize) (u32 cfg.ep.maxReceiveAlloc)) ∧
+    (c.address, reply) ∈ tx ∧
+    ∃ bytes v p, (c.address, bytes) ∈ rx ∧ decode (bytes.take MAX_FRAME_SIZE) = some (.syn v rn r p al) := by
+  have hcfg := (SRun.inv hc cfg (fun s => s.cfg = cfg) (fun _ _ => rfl) (fun _ _ _ hp hq => hq.cfg.trans hp)
+    (fun _ _ _ _ _ _ _ hp _ _ => hp) (fun _ _ _ _ _ _ _ _ _ _ _ hp _ _ => (Server.activate_cfg ..).trans hp)
+    (fun _ _ hp => hp) hr).2
+  obtain ⟨h1, h2⟩ := hr.WF.replyOk c hcm ln rn r al reply hst
+  obtain ⟨h3, h4⟩ := hr.prov c hcm ln rn r al reply hst
+  rw [hcfg] at h2
+  exact ⟨h1, h2, h3, h4⟩
+
+/-- At most one `connect` per entry: once activated, the entry is `active`, and every further
+handshake ACK from that address (whatever its nonce) is a no-op. -/
+theorem C07_server_connect_once (hc : HC H) (s : Server H) (hw : s.WF) (addr : Nat) (c : RClient H)
+    (hfind : s.find addr = some c) (ln rn rate alloc nowMs nowNs na nowMs' nowNs' : Nat) :
+    (s.activate hc c ln rn rate alloc nowMs nowNs).handleFrame hc addr (.hsAck na) nowMs' nowNs' =
+      .ok (s.activate hc c ln rn rate alloc nowMs nowNs, []) := by
+  obtain ⟨hcm, haddr⟩ := Server.find_some hfind
+  have hf := hw.activate_find hc hcm ln rn rate alloc nowMs nowNs
+  rw [haddr] at hf
+  apply Server.handleFrame_hsAck_noop
+  rintro ⟨c', _, _, _, _, hf', hst'⟩
+  rw [hf] at hf'
+  cases hf'
+  cases hst'
+
+/-! ## C07_forged_noop (server half) -/
+
+/-- In every server state a frame from `a` that is (i) a SYN while `a` already has an entry (in
+whatever state), (ii) a handshake ACK whose nonce is not the `localNonce` of a pending entry of `a`
+(wrong nonce, entry not pending, or no entry), (iii) a SYN-ACK or a handshake error — leaves the
+whole server state (entries, events, timers, RNG) unchanged and sends nothing. -/
+theorem C07_forged_noop_server (hc : HC H) (s : Server H) (a nowMs nowNs : Nat) :
+    (∀ c v n r p al, s.find a = some c → s.handleFrame hc a (.syn v n r p al) nowMs nowNs = .ok (s, [])) ∧
+    (∀ na, (¬ ∃ c rn rate alloc reply, s.find a = some c ∧ c.state = .pending na rn rate alloc reply) →
+      s.handleFrame hc a (.hsAck na) nowMs nowNs = .ok (s, [])) ∧
+    (∀ na n r p al, s.handleFrame hc a (.synAck na n r p al) nowMs nowNs = .ok (s, [])) ∧
+    (∀ na e, s.handleFrame hc a (.hsError na e) nowMs nowNs = .ok (s, [])) :=
+  ⟨fun _ v n r p al hf => Server.handleFrame_syn_known hc hf v n r p al nowMs nowNs,
+   fun na hno => Server.handleFrame_hsAck_noop hc s a na nowMs nowNs hno,
+   fun _ _ _ _ _ => rfl, fun _ _ => rfl⟩
+
+/-- Special cases of (ii), spelled out: wrong nonce for a pending entry; entry not pending. -/
+theorem C07_forged_ack_cases (hc : HC H) (s : Server H) (a na nowMs nowNs : Nat) (c : RClient H)
+    (hf : s.find a = some c) :
+    (∀ ln rn rate alloc reply, c.state = .pending ln rn rate alloc reply → na ≠ ln →
+      s.handleFrame hc a (.hsAck na) nowMs nowNs = .ok (s, [])) ∧
+    (c.state.isPending = false → s.handleFrame hc a (.hsAck na) nowMs nowNs = .ok (s, [])) := by
+  constructor
+  · intro ln rn rate alloc reply hst hne
+    apply Server.handleFrame_hsAck_noop
+    rintro ⟨c', _, _, _, _, hf', hst'⟩
+    rw [hf] at hf'; cases hf'
+    rw [hst] at hst'; cases hst'
+    exact hne rfl
+  · intro hnp
+    apply Server.handleFrame_hsAck_noop
+    rintro ⟨c', _, _, _, _, hf', hst'⟩
+    rw [hf] at hf'; cases hf'
+    rw [hst'] at hnp; cases hnp
+
+/-- The same for whole datagrams: a datagram that does not decode is ignored. -/
+theorem C07_undecodable_noop (hc : HC H) (s : Server H) (a : Nat) (bytes : List Nat) (nowMs nowNs : Nat)
+    (hd : decode (bytes.take MAX_FRAME_SIZE) = none) :
+    s.handleFrames hc [(a, bytes)] nowMs nowNs = .ok (s, []) := by
+  rw [Server.handleFrames_single, hd]
+
+/-! ## C07_refusal (server half) -/
+
+/-- A SYN from an address without an entry is refused with exactly one error frame echoing the SYN's
+nonce, no entry is created (the map, detached objects, timers, `nextCid`, RNG are unchanged; at most
+an `error` event is queued when `enable_handshake_errors`):
+* wrong version ⇒ `hsError nonce version`;
+* right version, server full ⇒ `hsError nonce serverFull`;
+* right version, not full, `max_receive_alloc < server.max_packet_size` or
+  `max_packet_size > server.max_receive_alloc` ⇒ `hsError nonce config`. -/
+theorem C07_refusal_server (s : Server H) (addr v n r p a nowMs : Nat) (hf : s.find addr = none) :
+    (v ≠ PROTOCOL_VERSION →
+      s.handleSyn addr v n r p a nowMs = (s.refuse addr .version, [(addr, encode (.hsError n .version))])) ∧
+    (v = PROTOCOL_VERSION → s.full →
+      s.handleSyn addr v n r p a nowMs = (s.refuse addr .serverFull, [(addr, encode (.hsError n .serverFull))])) ∧
+    (v = PROTOCOL_VERSION → ¬ s.full → (a < s.cfg.ep.maxPacketSize ∨ p > s.cfg.ep.maxReceiveAlloc) →
+      s.handleSyn addr v n r p a nowMs = (s.refuse addr .config, [(addr, encode (.hsError n .config))])) ∧
+    (∀ ev, (s.refuse addr ev).clients = s.clients ∧ (s.refuse addr ev).detached = s.detached ∧
+      (s.refuse addr ev).timers = s.timers ∧ (s.refuse addr ev).nextCid = s.nextCid ∧
+      (s.refuse addr ev).rng = s.rng ∧ (s.refuse addr ev).active = s.active ∧
+      (s.refuse addr ev).find addr = none ∧
+      (s.refuse addr ev).eventsOut =
+        (if s.cfg.enableHandshakeErrors then s.eventsOut ++ [SEvent.error addr ev] else s.eventsOut)) := by
+  refine ⟨fun hv => Server.handleSyn_version hf v n r p a nowMs hv, ?_, ?_, ?_⟩
+  · intro hv hfull; subst hv; exact Server.handleSyn_full hf n r p a nowMs hfull
+  · intro hv hfull hcfg; subst hv; exact Server.handleSyn_config hf n r p a nowMs hfull hcfg
+  · intro ev; exact ⟨rfl, rfl, rfl, rfl, rfl, rfl, hf, rfl⟩
+
+/-- Conversely a SYN is accepted only with the right version, room, and compatible sizes. -/
+theorem C07_accept_only_if (s : Server H) (addr v n r p a nowMs : Nat)
+    (hch : (s.handleSyn addr v n r p a nowMs).1.clients ≠ s.clients) :
+    v = PROTOCOL_VERSION ∧ s.find addr = none ∧ ¬ s.full ∧ ¬ a < s.cfg.ep.maxPacketSize ∧
+    ¬ p > s.cfg.ep.maxReceiveAlloc ∧
+    s.handleSyn addr v n r p a nowMs = (s.accept addr n r a nowMs, [(addr, s.synAckBytes n)]) := by
+  rcases s.handleSyn_cases addr v n r p a nowMs with ⟨_, he⟩ | ⟨_, e, ev, he⟩ | ⟨hf, hv, hfull, h1, h2, he⟩
+  · rw [he] at hch; exact absurd rfl hch
+  · rw [he] at hch; exact absurd rfl hch
+  · exact ⟨hv, hf, hfull, h1, h2, he⟩
+
+/-! ## C07_agreement -/
+
+/-- **C07_agreement (configurations).** Let the client (endpoint configuration `cep`, nonce `nc`)
+and the server (`sep`, nonce `ns`) derive their half-connection configurations from the values
+carried by the handshake frames: the server from the SYN fields `(nc, u32 cep.maxReceiveRate,
+u32 cep.maxReceiveAlloc)`, the client from the SYN-ACK fields `(ns, u32 sep.maxReceiveRate,
+u32 sep.maxReceiveAlloc)`. Then frame and packet id bases are mirrored, each side's send allocation
+limit is the other's (clamped) receive allocation, and each side's bandwidth limit is the minimum
+of its own send rate and the other's receive rate. -/
+theorem C07_agreement (cep sep : EpConfig) (nc ns : Nat) :
+    let C := hcConfig cep nc ns (u32 sep.maxReceiveRate) (u32 sep.maxReceiveAlloc)
+    let S := hcConfig sep ns nc (u32 cep.maxReceiveRate) (u32 cep.maxReceiveAlloc)
+    C.txFrameBaseId = S.rxFrameBaseId ∧ C.rxFrameBaseId = S.txFrameBaseId ∧
+    C.txPacketBaseId = S.rxPacketBaseId ∧ C.rxPacketBaseId = S.txPacketBaseId ∧
+    C.txPacketBaseId = nc % PACKET_ID_SPAN ∧ S.txPacketBaseId = ns % PACKET_ID_SPAN ∧
+    C.txFrameWindowSize = S.rxFrameWindowSize ∧ C.rxFrameWindowSize = S.txFrameWindowSize ∧
+    C.txPacketWindowSize = S.rxPacketWindowSize ∧ C.rxPacketWindowSize = S.txPacketWindowSize ∧
+    C.txAllocLimit = u32 sep.maxReceiveAlloc ∧ S.txAllocLimit = u32 cep.maxReceiveAlloc ∧
+    C.txAllocLimit = u32 S.rxAllocLimit ∧ S.txAllocLimit = u32 C.rxAllocLimit ∧
+    C.txAllocLimit ≤ S.rxAllocLimit ∧ S.txAllocLimit ≤ C.rxAllocLimit ∧
+    C.txBandwidthLimit = min (cep.maxSendRate % 2^32) (u32 sep.maxReceiveRate) ∧
+    S.txBandwidthLimit = min (sep.maxSendRate % 2^32) (u32 cep.maxReceiveRate) := by
+  intro C S
+  refine ⟨rfl, rfl, rfl, rfl, rfl, rfl, rfl, rfl, rfl, rfl, rfl, rfl, rfl, rfl, ?_, ?_, rfl, rfl⟩
+  · show u32 sep.maxReceiveAlloc ≤ sep.maxReceiveAlloc
+    unfold u32; omega
+  · show u32 cep.maxReceiveAlloc ≤ cep.maxReceiveAlloc
+    unfold u32; omega
+
+/-- The handshake frames carry these values: encoding and decoding them (through the 1472-byte
+receive buffer) gives them back, because nonces and `u32`-clamped fields are below `2^32`. -/
+theorem C07_agreement_frames (cep sep : EpConfig) (nc ns : Nat) (hnc : nc < 2^32) (hns : ns < 2^32) :
+    decode ((encode (.syn PROTOCOL_VERSION nc (u32 cep.maxReceiveRate) (u32 cep.maxPacketSize)
+        (u32 cep.maxReceiveAlloc))).take MAX_FRAME_SIZE) =
+      some (.syn PROTOCOL_VERSION nc (u32 cep.maxReceiveRate) (u32 cep.maxPacketSize) (u32 cep.maxReceiveAlloc)) ∧
+    decode ((encode (.synAck nc ns (u32 sep.maxReceiveRate) (u32 sep.maxPacketSize)
+        (u32 sep.maxReceiveAlloc))).take MAX_FRAME_SIZE) =
+      some (.synAck nc ns (u32 sep.maxReceiveRate) (u32 sep.maxPacketSize) (u32 sep.maxReceiveAlloc)) ∧
+    decode ((encode (.hsAck ns)).take MAX_FRAME_SIZE) = some (.hsAck ns) :=
+  ⟨decode_syn _ _ _ _ _ (by decide) hnc (u32_lt _) (u32_lt _) (u32_lt _),
+   decode_synAck _ _ _ _ _ hnc hns (u32_lt _) (u32_lt _) (u32_lt _),
+   decode_hsAck _ hns⟩
+
+/-- **C07_agreement (the loss-free exchange in the model).** A client `connect`s (drawing `nc`); its
+SYN datagram reaches a well-formed server that has no entry for `addr`, is not full and whose size
+checks pass; the server's reply reaches the client; the client's ACK reaches the server. Then:
+1. the server accepts, creating `pending ns nc (u32 cep.maxReceiveRate) (u32 cep.maxReceiveAlloc)`
+   with `ns = s.drawNonce`, and sends the SYN-ACK `s.synAckBytes nc` to `addr`;
+2. the client, on that datagram, emits `connect`, becomes `active` with
+   `hc.new (hcConfig cep nc ns (u32 sep.maxReceiveRate) (u32 sep.maxReceiveAlloc))` and sends `hsAck ns`;
+3. the server, on that datagram, activates the entry with
+   `hc.new (hcConfig sep ns nc (u32 cep.maxReceiveRate) (u32 cep.maxReceiveAlloc))` (see
+   `Server.activate`) and emits `connect addr`;
+and the two configurations agree in the sense of `C07_agreement`. -/
+theorem C07_agreement_exchange {HS HK : Type} (hcS : HC HS) (hcK : HC HK) (cep : EpConfig) (nowK : Nat) (rngK : Rng)
+    (s : Server HS) (hw : s.WF) (addr nowMs nowNs nowMsK nowNsK nowMs' nowNs' : Nat)
+    (hf : s.find addr = none) (hfull : ¬ s.full)
+    (h1 : ¬ u32 cep.maxReceiveAlloc < s.cfg.ep.maxPacketSize)
+    (h2 : ¬ u32 cep.maxPacketSize > s.cfg.ep.maxReceiveAlloc) :
+    let nc := rngK.next.1 % 2^32
+    let ns := s.drawNonce
+    let sep := s.cfg.ep
+    let cl : Client HK := (Client.connect cep nowK rngK).1
+    let s1 := s.accept addr nc (u32 cep.maxReceiveRate) (u32 cep.maxReceiveAlloc) nowMs
+    ∃ synBytes ackBytes,
+      (Client.connect cep nowK rngK : Client HK × List (List Nat)).2 = [synBytes] ∧
+      s.handleFrames hcS [(addr, synBytes)] nowMs nowNs = .ok (s1, [(addr, s.synAckBytes nc)]) ∧
+      decode ((s.synAckBytes nc).take MAX_FRAME_SIZE) =
+        some (.synAck nc ns (u32 sep.maxReceiveRate) (u32 sep.maxPacketSize) (u32 sep.maxReceiveAlloc)) ∧
+      cl.handleFrame hcK (.synAck nc ns (u32 sep.maxReceiveRate) (u32 sep.maxPacketSize) (u32 sep.maxReceiveAlloc))
+          nowMsK nowNsK =
+        .ok ({ cl with eventsOut := [CEvent.connect],
+                       state := (.active nc (hcK.new (hcConfig cep nc ns (u32 sep.maxReceiveRate) (u32 sep.maxReceiveAlloc)) nowNsK)
+                                 cep.activeTimeoutMs none) }, [ackBytes]) ∧
+      s1.handleFrames hcS [(addr, ackBytes)] nowMs' nowNs' =
+        .ok (s1.activate hcS (s.newEntry addr nc (u32 cep.maxReceiveRate) (u32 cep.maxReceiveAlloc)) ns nc
+              (u32 cep.maxReceiveRate) (u32 cep.maxReceiveAlloc) nowMs' nowNs', []) ∧
+      s1.cfg.ep = sep := by
+  intro nc ns sep cl s1
+  have hnc : nc < 2^32 := Nat.mod_lt _ (by decide)
+  refine ⟨encode (.syn PROTOCOL_VERSION nc (u32 cep.maxReceiveRate) (u32 cep.maxPacketSize) (u32 cep.maxReceiveAlloc)),
+    encode (.hsAck ns), rfl, ?_, ?_, ?_, ?_, rfl⟩
+  · rw [Server.handleFrames_single,
+      decode_syn _ _ _ _ _ (by decide) hnc (u32_lt _) (u32_lt _) (u32_lt _)]
+    simp only [Server.handleFrame]
+    rw [Server.handleSyn_accept hf _ _ _ _ _ hfull h1 h2]
+  · exact decode_synAck _ _ _ _ _ hnc s.drawNonce_lt (u32_lt _) (u32_lt _) (u32_lt _)
+  · simp only [cl, Client.connect, Client.handleFrame, List.foldl_nil, List.nil_append]
+    rw [if_pos rfl]
+  · rw [Server.handleFrames_single, decode_hsAck _ s.drawNonce_lt]
+    exact hw.accept_then_ack hcS hf _ _ _ _ _ _
+
+/-! ### non-vacuity -/
+
+/-- a dummy half connection over `Unit` -/
+def hc0 : HC Unit :=
+  { new := fun _ _ => (), send := fun _ _ _ _ => (), dispatch := fun _ _ => .ok (), step := fun _ _ => .ok (),
+    flush := fun _ r => .ok ((), r, []), receive := fun _ => .ok ((), []), isSendPending := fun _ => false,
+    sendBufferSize := fun _ => 0 }
+
+def ep0 : EpConfig :=
+  { maxSendRate := 1000000, maxReceiveRate := 1000000, maxPacketSize := 1000, maxReceiveAlloc := 100000,
+    keepalive := true, keepaliveIntervalMs := 1000, activeTimeoutMs := 15000 }
+
+def cfg0 : SrvConfig := { maxTotalConnections := 4, maxActiveConnections := 2, enableHandshakeErrors := true, ep := ep0 }
+
+def s0 : Server Unit := Server.init cfg0 0 ⟨[77], 1⟩
+
+/-- a server with a pending entry for address 7 (nonce 77) and an active one for address 8 -/
+def sP : Server Unit :=
+  { s0 with
+    clients := [{ cid := 0, address := 7, state := .pending 77 5 1000 100000
+                    (encode (.synAck 5 77 (u32 ep0.maxReceiveRate) (u32 ep0.maxPacketSize) (u32 ep0.maxReceiveAlloc))) },
+                { cid := 1, address := 8, state := .active () 15000 none }],
+    nextCid := 2 }
+
+example : (s0.WF) := Server.init_WF cfg0 0 ⟨[77], 1⟩
+
+example : s0.find 7 = none ∧ ¬ s0.full ∧ ¬ u32 ep0.maxReceiveAlloc < s0.cfg.ep.maxPacketSize ∧
+    ¬ u32 ep0.maxPacketSize > s0.cfg.ep.maxReceiveAlloc := by decide
+
+/-- a SYN with a wrong version / from a known address / forged ACKs: hypotheses are satisfiable -/
+example : sP.find 9 = none ∧ (2 : Nat) ≠ PROTOCOL_VERSION := by decide
+
+example : ∃ c, sP.find 7 = some c ∧ ∃ ln rn rate alloc reply, c.state = .pending ln rn rate alloc reply ∧ (78 : Nat) ≠ ln :=
+  ⟨_, rfl, _, _, _, _, _, rfl, by decide⟩
+
+example : ∃ c, sP.find 8 = some c ∧ c.state.isPending = false := ⟨_, rfl, rfl⟩
+
+example : ¬ ∃ c rn rate alloc reply, sP.find 9 = some c ∧ c.state = .pending 77 rn rate alloc reply := by
+  rintro ⟨c, _, _, _, _, h, _⟩
+  have : sP.find 9 = none := by decide
+  rw [this] at h; cases h
+
+/-- the matching ACK for the pending entry of `sP` emits exactly `connect 7` -/
+example : (sP.handleHsAck hc0 7 77 10 10000000).eventsOut = [SEvent.connect 7] := by decide
+
+/-- a concrete run (kernel-evaluated, `Uflow/Lemmas/EndpointServerExample.lean`): the hypotheses of
+`C07_server_connect_sound` hold for the step that delivers `connect 7`, and the state before it has
+a pending entry as in `C07_server_nonce_provenance`. -/
+example : ∃ (s s' : Server Unit) (nowNs : Nat) (arrivals sent : List (Nat × List Nat)) (evs : List SEvent),
+    s.WF ∧ NoConn s.eventsOut ∧ s.step Ex.hc0 nowNs arrivals = .ok (s', sent, evs) ∧ SEvent.connect 7 ∈ evs ∧
+    (∃ rx tx ev, SRun Ex.hc0 Ex.cfg0 s rx tx ev ∧ s.clients.length = 1) := by
+  obtain ⟨s1, s2, sent1, sent2, h1, h2, _, _, h5, _⟩ := Ex.run
+  have r1 := SRun.op Ex.op1 (SRun.init (hc := Ex.hc0) (cfg := Ex.cfg0) 0 ⟨[77], 1⟩) h1
+  exact ⟨s1, s2, 2000000, [(7, Ex.ackBytes)], sent2, [SEvent.connect 7], r1.WF,
+    by rw [r1.eventsOut_nil]; exact NoConn.nil, h2, List.mem_cons_self, _, _, _, r1, h5⟩
 
 end Uflow.Props.C07
